@@ -918,7 +918,7 @@ func main() {
 	dir, seed, thorough := cases.Args()
 	r := cq.NewRNG(seed)
 	s := cases.New("C17", dir, "LW.Corr.C17",
-		"Percentage -5..300 exhaustively and Frequency boundary / 0.1 MHz-step / random values through json.Marshal and Unmarshal with the printed float given exactly (m*2^e); arbitrary JSON numbers into UnmarshalJSON; HEXBytes values on a length ladder (0..4096 bytes around powers of two in Coq, up to 64 KiB on the Go side) and malformed texts; key envelopes under KEKs of 16, 24 and 32 bytes (AES-128/192/256; RFC 3394 4.1-4.3 vectors first) and of every refused length: with and without label, one KEK / key bit changed, corrupted, wrong KEK of the same and of another size, short and over-long data; ISO8601Time: boundary instants x zone offsets, every month end, random instants of the years 0..9999 with whole-minute zones, instants outside RFC 3339 (format only), and texts into UnmarshalText (hand-written malformed list, fractions, day-of-month and field limits, zone limits, one-character mutations, random), all evaluated in Coq against format_rfc3339 / parse_rfc3339. generic JSON: json.Marshal of every byte as a string, string pieces and random trees (valid and invalid UTF-8), json.Valid / Decoder trees of documents with white space and escapes put in, hand-written malformed texts, prefixes, one-byte mutations, token soup and the nesting limit, against json_print / json_parse; payload structs: values of the 20 payload types and 10 nested objects (zero value, every optional field set, random optional-field combinations, edge values) printed by reflection without looking at the tags, json.Marshal by value and by pointer and json.Unmarshal compared with to_json / of_json over the type tables, plus decoding of documents with unknown, reversed, dropped, null and wrong-kind members. transport (Go side): the synchronous backend client against a test server on loopback, every request method and SendAnswer x every ResultCode x populated fields, answer sizes up to 64 KB written in one piece / flushed / gzip-encoded, status codes, TLS, error paths. Go side (additional volume): the 20 payload structs with random optional fields and with every variable-length field (HEXBytes, strings, slices) at lengths 17/256/257/4096, envelopes, timestamps. Every case is non-trivial; distinct = distinct printed case")
+		"Percentage -5..300 exhaustively and Frequency boundary / 0.1 MHz-step / random values through json.Marshal and Unmarshal with the printed float given exactly (m*2^e); arbitrary JSON numbers into UnmarshalJSON; HEXBytes values on a length ladder (0..4096 bytes around powers of two in Coq, up to 64 KiB on the Go side) and malformed texts; key envelopes under KEKs of 16, 24 and 32 bytes (AES-128/192/256; RFC 3394 4.1-4.3 vectors first) and of every refused length: with and without label, one KEK / key bit changed, corrupted, wrong KEK of the same and of another size, short and over-long data; ISO8601Time: boundary instants x zone offsets, every month end, random instants of the years 0..9999 with whole-minute zones, instants outside RFC 3339 (format only), and texts into UnmarshalText (hand-written malformed list, fractions, day-of-month and field limits, zone limits, one-character mutations, random), all evaluated in Coq against format_rfc3339 / parse_rfc3339. generic JSON: json.Marshal of every byte as a string, string pieces and random trees (valid and invalid UTF-8), json.Valid / Decoder trees of documents with white space and escapes put in, hand-written malformed texts, prefixes, one-byte mutations, token soup and the nesting limit, against json_print / json_parse; payload structs: values of the 20 payload types and 10 nested objects (zero value, every optional field set, random optional-field combinations, edge values) printed by reflection without looking at the tags, json.Marshal by value and by pointer and json.Unmarshal compared with to_json / of_json over the type tables, plus decoding of documents with unknown, reversed, dropped, null and wrong-kind members. transport (Go side): the synchronous backend client against a test server on loopback, every request method and SendAnswer x every ResultCode x populated fields, answer sizes up to 64 KB written in one piece / flushed / gzip-encoded, status codes, TLS, error paths. enumerated strings (Go side): the string constants of backend.go read with go/ast, the specification's spellings and every near-miss spelling (one character deleted / inserted / substituted / transposed / doubled, case and suffix variants) as bare values and in every string field of every payload type; ResultCode spellings also as Coq struct cases. Go side (additional volume): the 20 payload structs with random optional fields and with every variable-length field (HEXBytes, strings, slices) at lengths 17/256/257/4096, envelopes, timestamps. Every case is non-trivial; distinct = distinct printed case")
 	s.Watchdog(20 * time.Second) // calls into the client (transport section) run under cases.Begin / cases.End
 	floatCases(s, r.Fork(), thorough)
 	hexCases(s, r.Fork(), thorough)
